@@ -105,7 +105,7 @@ def wash_op(r, bad=False):
 
 
 def evo_program(r, pid, nops, unit=Fraction(1), kinds=None):
-    lws = [gen.mk_plate("plate", r.choice([8, 8, 4, 16, 3]), r.choice([12, 6, 2, 24]), 0, 300, [150] * 1)]
+    lws = [gen.mk_plate("plate", r.choice([8, 8, 4, 16, 3, 5, 6, 9, 12]), r.choice([12, 6, 2, 24, 5]), 0, 300, [150] * 1)]
     R, C = lws[0]["rows"], lws[0]["cols"]
     lws[0]["init"] = [r.choice([0, 150, 300, r.randint(0, 300)]) for _ in range(R * C)]
     V, TC = r.choice([1, 4, 8, 6]), r.choice([1, 2, 3])
@@ -169,6 +169,15 @@ def targeted_programs():
                              "lc": "Water", "label": "foreign"},
                             {"op": opn, "lw": 0, "wells": W([3, 4]), "tips": T([4, 5]), "vols": {"k": "l", "x": [5, 6]}, "lc": "Water", "label": "list"}]
                 progs.append(h)
+    # a trough served by several tips with ONE scalar volume: every tip takes that volume from the same real well
+    lw3 = [gen.mk_plate("plate", 8, 3, 0, 3000, [1500] * 24), gen.mk_trough("trough", 8, 2, 100, 5000, [1000, 4950])]
+    h = gen.header("evo/trough-scalar-volume", "evo", Fraction(1), 950, lw3, flags={"comp": False, "norm": False})
+    h["ops"] = [{"op": "evo_aspirate", "lw": 1, "wells": W([0, 1, 2, 3], 0), "tips": T([1, 2, 3, 4]), "vols": {"k": "s", "x": 200}, "lc": "T", "label": "4 x 200 leaves 200"},
+                {"op": "evo_dispense", "lw": 1, "wells": W([2, 5], 1), "tips": T([3, 6]), "vols": {"k": "s", "x": 25}, "lc": "W\u00e4ssrig 20\u00b5l", "label": "2 x 25 fits exactly"},
+                {"op": "evo_aspirate", "lw": 1, "wells": W(list(range(8)), 0), "tips": T(list(range(1, 9))), "vols": {"k": "s", "x": 20}, "lc": "T", "label": "8 x 20 > 200 - 100"},
+                {"op": "evo_aspirate", "lw": 1, "wells": W([0, 1], 0), "tips": T([1, 2]), "vols": {"k": "l", "x": [10]}, "lc": "T", "label": "a one-element list is one volume for every tip"},
+                {"op": "evo_dispense", "lw": 1, "wells": W([2, 5, 7], 1), "tips": T([3, 6, 8]), "vols": {"k": "s", "x": 20}, "lc": "T", "label": "3 x 20 > 5000 - 5000"}]
+    progs.append(h)
     # deck positions at the limits of their ranges (grid 1..67, site 1..128), both arms, a trough served by all eight tips
     for grid, site in ((67, 127), (1, 0), (67, 0), (1, 127)):
         lw2 = [gen.mk_plate("plate", 8, 3, 0, 3000, [1500] * 24), gen.mk_trough("trough", 8, 2, 0, 50000, [25000, 25000])]
